@@ -22,6 +22,14 @@ matching semantics *as a whole* are declined.  Decided (shape of the code and of
          before any conversion; arity/optionality flags reach build_converter under the right keywords;
   R05.f  segment structure: for every operator x type pattern x separator, the instantiated _SEG_TMPL is
          language-equal (NFA product) to (SEP TYPE)QUANT built independently from the documented meaning.
+  R05.g  the joined list: created empty by the call, one element per part of pattern.split('/') -- the literal part
+         itself, the segment of a binding glued (+=) to the element before it -- nothing else touches it; in strict mode it
+         is joined whole, outside strict mode without its last element exactly when that is empty (followed by symbolic
+         evaluation per mode: ``x[:-1]`` views, pop() / del, copies under other names); the converter map is created
+         empty by the call, every binding is recorded, the duplicate test looks at every binding;
+  R05.h  match_path: the mapping a match returns holds, for every (name, converter) of self.converters, the converter applied
+         once to the text captured for the group of that name (loop, dict comprehension, dict of pairs); the groups of the
+         match are read only where the match is known to be one.
 Declined: greedy/backtracking interaction between adjacent bindings, slash tolerance over all paths,
 conversion values.
 
@@ -39,6 +47,10 @@ How the code is read (so that behaviour-preserving rewrites stay silent):
   * a local bound once to a plain copy of another local (``op = raw_op``, also what inlining a helper that returns
     ``(name, op, type_name)`` leaves behind) stands for what the other held *when the copy was taken*: the ':'
     normalisation and the default type must have been applied on every path to the copy;
+  * build_converter is read as a *model* (``_ConvModel``): which function runs for a multi / single binding and how it spells the
+    converter, the optional flag and the captured text -- two closures, or an instance of a private callable class whose
+    __init__ stores the flags once (the choice made in __init__ through an attribute bound to one of two methods, or at every
+    call on a stored flag, the arms written out or in methods);
   * converters: conditions are compared as sets of facts (``optional and not value`` == ``not value and
     optional`` == nested ifs), single-assignment temporaries are inlined, the list of conversions may be a
     comprehension, ``list(map(...))`` or an explicit append loop.
@@ -1129,10 +1141,21 @@ def _rule_d_matching(rep):
     check_bound_regex(rep, 'R05.d')
     m_st = [s for s in stmts_of(mp.node) if isinstance(s, ast.Assign) and isinstance(s.value, ast.Call) and norm(s.value.func) == 'self.regex.match'
             and len(s.targets) == 1 and isinstance(s.targets[0], ast.Name)]
+    in_handler = set(id(x) for n in ast.walk(mp.node) if isinstance(n, ast.ExceptHandler) for x in ast.walk(n))
     ok = len(m_st) == 1 and _stores(mp.node, m_st[0].targets[0].id) == 1 and \
-        any(isinstance(r.value, ast.Constant) and r.value.value is None and
+        any(isinstance(r.value, ast.Constant) and r.value.value is None and id(r) not in in_handler and
             implies_absent(conds(mp, r), norm(m_st[0].targets[0])) for r in returns_of(mp) if r.value is not None)
     rep.check('R05.d', fkey(mp, 'no match => None'), ok, 'a failed regex match returns None' if ok else 'match_path does not return None for a failed match', route, mp.node)
+    if len(m_st) == 1:
+        # ... before the match object is looked into: its groups are read only where it is known to be a match
+        mvar = m_st[0].targets[0].id
+        reads = [n for n in walk_body(mp.node) if isinstance(n, (ast.Attribute, ast.Subscript)) and isinstance(n.ctx, ast.Load) and
+                 isinstance(n.value, ast.Name) and n.value.id == mvar]
+        bad = [n for n in reads if not implies_present(conds(mp, n), mvar)]
+        ok = bool(reads) and not bad
+        rep.check('R05.d', fkey(mp, 'groups read from a match'), ok, 'the groups are read only after the match was found to be one' if ok else
+                  'match_path looks into the result of regex.match where it may be None (%s): a path that does not match raises AttributeError / '
+                  'TypeError instead of returning None' % (short(stmt_of(route, bad[0]), 50) if bad else 'no read of the match found'), route, bad[0] if bad else mp.node)
     ok = m_st and len(mp.params()) > 1 and len(m_st[0].value.args) == 1 and norm(m_st[0].value.args[0]) == mp.params()[1] and not _stores(mp.node, mp.params()[1])
     rep.check('R05.d', fkey(mp, 'matches the path'), bool(ok), 'the compiled regex is matched against the given path' if ok else 'regex.match is not applied to the path', route, mp.node)
 
@@ -1842,9 +1865,13 @@ def _rule_h_result(rep):
         pair = None
         if isinstance(node, ast.DictComp):
             gens, pair = node.generators, (node.key, node.value)
-        elif isinstance(node, ast.Call) and isinstance(node.func, ast.Name) and node.func.id == 'dict' and len(node.args) == 1 and not node.keywords and \
-                isinstance(node.args[0], (ast.ListComp, ast.GeneratorExp)) and isinstance(node.args[0].elt, (ast.Tuple, ast.List)) and len(node.args[0].elt.elts) == 2:
-            gens, pair = node.args[0].generators, tuple(node.args[0].elt.elts)
+        elif isinstance(node, ast.Call) and isinstance(node.func, ast.Name) and node.func.id == 'dict' and len(node.args) == 1 and not node.keywords:
+            # dict(<pairs>): the pairs written in place or named first (a local bound once to the comprehension)
+            src = node.args[0]
+            if isinstance(src, ast.Name) and _single_def(mp, src.id) is not None:
+                src = _single_def(mp, src.id)
+            if isinstance(src, (ast.ListComp, ast.GeneratorExp)) and isinstance(src.elt, (ast.Tuple, ast.List)) and len(src.elt.elts) == 2:
+                gens, pair = src.generators, tuple(src.elt.elts)
         if pair is not None:
             it = iteration(gens[0].target, gens[0].iter) if len(gens) == 1 and not gens[0].ifs and not gens[0].is_async else None
             if it is None and not any(CONVS in norm(_inline(mp, g.iter)) for g in gens):
@@ -1911,7 +1938,8 @@ def _rule_f(rep, pats, seg):
 
 def run(rep):
     rep.decide('R05.a type tables and pattern constants; R05.b operator tables vs quantifiers; R05.c five rejections; '
-               'R05.d anchoring / separators / no-raise matching; R05.e converter shapes; R05.f segment structure (automata)')
+               'R05.d anchoring / separators / no-raise matching; R05.e converter shapes; R05.f segment structure (automata); '
+               'R05.g construction of the joined list of segments and of the converter map; R05.h the mapping a match returns')
     rep.decline('pattern x path matching semantics as a whole (language of a regex assembled at run time); greedy '
                 'backtracking between adjacent bindings; conversion values')
     rep.assume('re._parser gives the syntax tree the re module compiles')
@@ -1936,7 +1964,7 @@ def run(rep):
         _guarded(rep, _rule_d_compiled, rep, R)
     _guarded(rep, _rule_d_matching, rep)
     if not rep.gaps:
-        rep.floor('R05.d', 9)
+        rep.floor('R05.d', 10)
     _guarded(rep, _rule_e_converters, rep)
     if R is not None and pats is not None:
         _guarded(rep, _rule_e_bindings, rep, R, convs, pats)
